@@ -10,6 +10,11 @@ Rules (float and double instantiations)
       value above the truncation threshold inverted, the threshold not above sigma_max*1e-12 (cond(J) < 1e6 in the quantifier)
   L4  weighted variant: weightJAndY_() runs before the estimate and scales Y_ and every column of J_ by W_ over the same slice
   L5  preconditioner: setPreconditionner(Ac,Bc) stores both, setPreconditionner(Ac) uses Bc = 0 of the estimate size
+  L6  effects: the unweighted entries (estimateUsingSVD / estimateUsingCholeskyDecomposition and the helpers they reach) never let the weight
+      buffer W_ flow into a member or the result - W_ keeps the weights of an earlier weighted problem (it is reset only when the buffers grow),
+      and the unweighted answer is the minimiser of |Jx - Y|, a function of J and Y alone
+Verdict discipline: a form that is not one of the enumerated idioms is UNDECIDED; VIOLATED needs a fact that holds whatever the form
+(a member that no path writes, a buffer that no path reads, a tainted store).
 Not decided: residual 'to rounding', agreement of the two paths numerically for given condition numbers."""
 from ..tree import sx, walk, pp, short_fn, strip_casts, const_value, children
 from .C20 import m, deep_unwrap, contains_name
@@ -75,6 +80,77 @@ def sliced(member, chain):
             continue
         return False
     return False
+
+
+ASSIGN_OPS = ('=', '+=', '-=', '*=', '/=')
+
+
+def root_name(t):
+    while isinstance(t, tuple) and len(t) > 1:
+        t = t[1]
+    return t if isinstance(t, str) else None
+
+
+def names_in(t, acc=None):
+    acc = set() if acc is None else acc
+    if isinstance(t, str):
+        acc.add(t)
+    elif isinstance(t, tuple):
+        for x in t:
+            names_in(x, acc)
+    return acc
+
+
+def effects(fx, cq, f, seen=None):
+    """(reads, writes, tainted_stores) over this-members of f and of the member functions of the same class it calls (transitively).
+    tainted_stores: statements in which W_ (or a local initialised from it) appears and a member is written or a value is returned."""
+    seen = set() if seen is None else seen
+    if f is None or f.get('body') is None or f['q'] + f['sig'] in seen:
+        return set(), set(), []
+    seen.add(f['q'] + f['sig'])
+    reads, writes, tainted = set(), set(), []
+    taint_locals = set()
+    for s in stmts_sx(f):
+        kind, t = s[0], s[-1]
+        ns = names_in(t)
+        mem = {n for n in ns if n.startswith('this.')}
+        w_here = set()
+        def scan(u):
+            if isinstance(u, tuple):
+                if u and u[0] in ASSIGN_OPS and len(u) == 3:
+                    r = root_name(u[1])
+                    if r and r.startswith('this.'):
+                        w_here.add(r)
+                elif u and isinstance(u[0], str) and u[0] in ('.resize', '.conservativeResize', '.setZero', '.setOnes', '.setConstant', '.setIdentity', '.fill', '.swap', 'u++', 'u--', '++u', '--u') and len(u) > 1:
+                    r = root_name(u[1])
+                    if r and r.startswith('this.'):
+                        w_here.add(r)
+                for x in u:
+                    scan(x)
+        scan(t)
+        writes |= w_here
+        reads |= mem
+        has_w = 'this.W_' in ns or bool(ns & taint_locals)
+        if kind == 'decl' and has_w:
+            taint_locals.add(s[1])
+        if has_w and (kind == 'return' or (w_here - {'this.W_'})):
+            tainted.append((f['name'], s))
+        # calls to members of the same class
+        def calls(u):
+            if isinstance(u, tuple):
+                if u and isinstance(u[0], str) and u[0].startswith('.') and len(u) >= 2 and u[1] == 'this':
+                    yield u[0][1:], len(u) - 2
+                for x in u:
+                    yield from calls(x)
+        for (callee, nargs) in calls(t):
+            for g in fx.fn(cq + '::' + callee):
+                if len(g['params']) != nargs:
+                    continue
+                r2, w2, t2 = effects(fx, cq, g, seen)
+                reads |= r2
+                writes |= w2
+                tainted += t2
+    return reads, writes, tainted
 
 
 def run(fx, R, tier):
@@ -211,7 +287,15 @@ def check_paths(fx, R, cq, cname):
             R.violated('L3', inst + ':normal-equations', 'this path does not build %s with the shared helper before using it (%s): the two solver paths then solve different normal equations' % (
                 'J^T J' if not okj else 'J^T Y', [s[1] for s in st if contains_name(s, 'this.JtJ_')][:1]), fx.rel(f['loc']), 'E-STATE')
         rets = [s[1] for s in st if s[0] == 'return']
-        R.check(rets in ([RET], [RET2]), 'L3', inst + ':result', 'returns %s, expected Ac_*inverseJtJ_*JtY_ + Bc_' % (rets,), 'x = A (JtJ)^-1 JtY + b', fx.rel(f['loc']), 'E-SIB')
+        if rets in ([RET], [RET2]):
+            R.holds('L3', inst + ':result', 'x = A (JtJ)^-1 JtY + b', fx.rel(f['loc']), 'E-SIB')
+        else:
+            absent = [n for n in ('this.Ac_', 'this.Bc_', 'this.inverseJtJ_', 'this.JtY_') if rets and not any(contains_name(r, n) for r in rets)]
+            if absent:
+                R.violated('L3', inst + ':result', 'the returned expression %s does not use %s: the %s is not applied on this path' % (
+                    rets, absent, 'preconditioner' if absent[0] in ('this.Ac_', 'this.Bc_') else 'solution of the normal equations'), fx.rel(f['loc']), 'E-SIB')
+            else:
+                R.undecided('L3', inst + ':result', 'returns %s, not one of the enumerated forms of Ac_*inverseJtJ_*JtY_ + Bc_' % (rets,))
     stc = stmts_sx(fc)
     inv = [s[1] for s in stc if s[0] == 'expr' and isinstance(s[1], tuple) and s[1][:2] == ('=', 'this.inverseJtJ_')]
     okc = len(inv) == 1 and m(('=', 'this.inverseJtJ_', ('.solve', ({'.ldlt', '.llt'}, 'this.JtJ_'), ('Eigen::MatrixBase<$M>::Identity', 'this.estimateSize_', 'this.estimateSize_'))), inv[0], {}) or \
@@ -229,8 +313,10 @@ def check_paths(fx, R, cq, cname):
     sv = svd[0][1]
     want_diag = ('expr', ('=', 'this.inverseJtJ_', ('.asDiagonal', ('.singularValues', sv))))
     want_prod = ('expr', ('=', 'this.inverseJtJ_', ('*', ('*', ('.matrixV', sv), 'this.inverseJtJ_'), ('.transpose', ('.matrixU', sv)))))
-    R.check(want_diag in sts and want_prod in sts and sts.index(want_diag) < sts.index(want_prod), 'L3', cname + '::estimateUsingSVD:pinv',
-            'pseudo-inverse is not V * diag(f(sigma)) * U^T: %s' % [s[1] for s in sts if s[0] == 'expr' and contains_name(s, 'this.inverseJtJ_')], 'V diag(1/sigma) U^T', fx.rel(fs['loc']), 'E-SIB')
+    if want_diag in sts and want_prod in sts and sts.index(want_diag) < sts.index(want_prod):
+        R.holds('L3', cname + '::estimateUsingSVD:pinv', 'V diag(1/sigma) U^T', fx.rel(fs['loc']), 'E-SIB')
+    else:
+        R.undecided('L3', cname + '::estimateUsingSVD:pinv', 'pseudo-inverse is not in the enumerated form V * diag(f(sigma)) * U^T: %s' % [s[1] for s in sts if s[0] == 'expr' and contains_name(s, 'this.inverseJtJ_')])
     loops = [x for x in walk(fs['body']) if x.get('k') == 'For']
     inst = cname + '::estimateUsingSVD:truncation'
     if len(loops) != 1 or loop_header(loops[0]) is None:
@@ -306,7 +392,14 @@ def check_weight_precond(fx, R, cq, cname):
         st = stmts_sx(fwe)
         ok = st in ([('expr', ('.weightJAndY_', 'this')), ('return', ('.estimateUsingCholeskyDecomposition', 'this'))],
                     [('expr', ('.weightJAndY_', 'this')), ('return', ('.estimateUsingSVD', 'this'))])
-        R.check(ok, 'L4', cname + '::weightedEstimate', 'weightedEstimate is %s, expected weightJAndY_() then an estimate' % (st,), 'weights applied before the estimate', fx.rel(fwe['loc']), 'E-STATE')
+        rd, wr, _ = effects(fx, cq, fwe)
+        if ok:
+            R.holds('L4', cname + '::weightedEstimate', 'weights applied before the estimate', fx.rel(fwe['loc']), 'E-STATE')
+        elif 'this.W_' not in rd:
+            R.violated('L4', cname + '::weightedEstimate', 'no function reached from weightedEstimate() reads the weight buffer W_: the weighted variant returns the unweighted minimiser',
+                       fx.rel(fwe['loc']), 'E-STATE')
+        else:
+            R.undecided('L4', cname + '::weightedEstimate', 'weightedEstimate is %s, not the enumerated form weightJAndY_() then an estimate' % (st,))
         sw = stmts_sx(fw)
         loops = [x for x in walk(fw['body']) if x.get('k') == 'For']
         h = loop_header(loops[0]) if len(loops) == 1 else None
@@ -323,7 +416,79 @@ def check_weight_precond(fx, R, cq, cname):
         return
     R.used(*ps)
     s1, s2 = stmts_sx(ps[0]), stmts_sx(ps[1])
-    ok2 = s2 == [('expr', ('=', 'this.Ac_', 'Ac')), ('expr', ('=', 'this.Bc_', 'Bc'))]
-    ok1 = len(s1) == 1 and s1[0][0] == 'expr' and s1[0][1][:3] == ('.setPreconditionner', 'this', 'Ac') and 'Zero' in str(s1[0][1][3]) and contains_name(s1[0][1][3], 'this.estimateSize_')
-    R.check(ok2, 'L5', cname + '::setPreconditionner(A,b)', 'does not store both parts: %s' % (s2,), 'stores A and b', fx.rel(ps[1]['loc']), 'E-SIB')
-    R.check(ok1, 'L5', cname + '::setPreconditionner(A)', 'does not reset b to zero of the estimate size: %s' % (s1,), 'b = 0', fx.rel(ps[0]['loc']), 'E-SIB')
+    def subst(t, env):
+        if isinstance(t, str):
+            return env.get(t, t)
+        if isinstance(t, tuple):
+            return tuple(subst(x, env) for x in t)
+        return t
+
+    def final_values(f, env=None, depth=0):
+        """member -> stored expression for a body made of plain member assignments and at most a delegation to a sibling overload; None otherwise."""
+        out = {}
+        for st_ in stmts_sx(f):
+            if st_[0] != 'expr' or not isinstance(st_[1], tuple):
+                return None
+            t = subst(st_[1], env or {})
+            if t[0] == '=' and isinstance(t[1], str) and t[1].startswith('this.'):
+                out[t[1]] = t[2]
+            elif t[0] == '.setPreconditionner' and t[1] == 'this' and depth == 0:
+                g = [p for p in ps if len(p['params']) == len(t) - 2 and p is not f]
+                if len(g) != 1:
+                    return None
+                sub = final_values(g[0], {p['name']: a for p, a in zip(g[0]['params'], t[2:])}, 1)
+                if sub is None:
+                    return None
+                out.update(sub)
+            else:
+                return None
+        return out
+    for (f, tag, what) in ((ps[1], '(A,b)', 'stores A and b'), (ps[0], '(A)', 'b = 0')):
+        _, wr, _ = effects(fx, cq, f)
+        missing = [n for n in ('this.Ac_', 'this.Bc_') if n not in wr]
+        inst = cname + '::setPreconditionner' + tag
+        fv = final_values(f)
+        if missing:
+            R.violated('L5', inst, 'no path of setPreconditionner%s writes %s (%s): the solver keeps applying the previous %s' % (
+                tag, missing, stmts_sx(f), 'offset b' if missing == ['this.Bc_'] else 'preconditioner'), fx.rel(f['loc']), 'E-STATE')
+            continue
+        if fv is None:
+            R.undecided('L5', inst, 'not a sequence of member assignments / one delegation: %s' % (stmts_sx(f),))
+            continue
+        a, b = fv.get('this.Ac_'), fv.get('this.Bc_')
+        names = [p['name'] for p in f['params']]
+        if a != names[0]:
+            if a == 'this.Ac_' or (len(names) > 1 and a == names[1]):
+                R.violated('L5', inst, 'Ac_ receives `%s`, not the matrix argument' % (a,), fx.rel(f['loc']), 'E-STATE')
+            else:
+                R.undecided('L5', inst, 'Ac_ receives %s' % (a,))
+            continue
+        if tag == '(A,b)':
+            if b == names[1]:
+                R.holds('L5', inst, what, fx.rel(f['loc']), 'E-SIB')
+            elif b in ('this.Bc_', names[0]):
+                R.violated('L5', inst, 'Bc_ receives `%s`, not the offset argument' % (b,), fx.rel(f['loc']), 'E-STATE')
+            else:
+                R.undecided('L5', inst, 'Bc_ receives %s' % (b,))
+        else:
+            if 'Zero' in str(b) and contains_name(b, 'this.estimateSize_'):
+                R.holds('L5', inst, what, fx.rel(f['loc']), 'E-SIB')
+            elif b == 'this.Bc_':
+                R.violated('L5', inst, 'setPreconditionner(A) stores Bc_ = Bc_: the offset of an earlier setPreconditionner(A,b) is kept, the statement gives A x + 0 after setPreconditionner(A)', fx.rel(f['loc']), 'E-STATE')
+            else:
+                R.undecided('L5', inst, 'Bc_ receives %s, not Zero(estimateSize_)' % (b,))
+    # ---- L6: the unweighted entries are functions of J and Y alone --------------------------------------------------
+    for en in ('estimateUsingSVD', 'estimateUsingCholeskyDecomposition', 'computeEstimateCovariance'):
+        f = fx.one(cq + '::' + en)
+        if f is None:
+            R.undecided('L6', cname + '::' + en, 'anchor vanished')
+            continue
+        rd, wr, tainted = effects(fx, cq, f)
+        if tainted:
+            (fn_, st_) = tainted[0]
+            R.violated('L6', '%s::%s:reads-weights' % (cname, en), 'the unweighted entry %s() reaches %s(), where the weight buffer W_ flows into `%s`; W_ still holds the weights of an earlier weighted '
+                       'problem (it is reset only when the buffers grow), so the result is not the minimiser of |Jx - Y| of the current problem' % (en, fn_, st_[-1],), fx.rel(f['loc']), 'E-STATE')
+        elif 'this.W_' in rd:
+            R.undecided('L6', '%s::%s:reads-weights' % (cname, en), 'W_ is read on the unweighted path but no store or return uses it directly')
+        else:
+            R.holds('L6', '%s::%s:reads-weights' % (cname, en), 'no function reached reads W_ (reads: %s)' % sorted(rd), fx.rel(f['loc']), 'E-STATE')
